@@ -45,9 +45,29 @@ func hexField(b []byte) string {
 	return hex.EncodeToString(b)
 }
 
+// colName is the canonical, invertible spelling of a colour: dynamic type and raw fields (hex).
 func colName(c color.Color) string {
-	if c == nil {
+	switch v := c.(type) {
+	case nil:
 		return "nil"
+	case color.Gray:
+		return fmt.Sprintf("Gray:%02x", v.Y)
+	case color.Gray16:
+		return fmt.Sprintf("Gray16:%04x", v.Y)
+	case color.RGBA:
+		return fmt.Sprintf("RGBA:%02x,%02x,%02x,%02x", v.R, v.G, v.B, v.A)
+	case color.NRGBA:
+		return fmt.Sprintf("NRGBA:%02x,%02x,%02x,%02x", v.R, v.G, v.B, v.A)
+	case color.RGBA64:
+		return fmt.Sprintf("RGBA64:%04x,%04x,%04x,%04x", v.R, v.G, v.B, v.A)
+	case color.NRGBA64:
+		return fmt.Sprintf("NRGBA64:%04x,%04x,%04x,%04x", v.R, v.G, v.B, v.A)
+	case color.CMYK:
+		return fmt.Sprintf("CMYK:%02x,%02x,%02x,%02x", v.C, v.M, v.Y, v.K)
+	case color.Alpha:
+		return fmt.Sprintf("Alpha:%02x", v.A)
+	case color.Alpha16:
+		return fmt.Sprintf("Alpha16:%04x", v.A)
 	}
 	r, g, b, a := c.RGBA()
 	t := fmt.Sprintf("%T", c)
@@ -84,27 +104,40 @@ func modelByName(n string) color.Model {
 	panic("unknown model " + n)
 }
 
-// parseColour is the inverse of colName for the colour types the generators use.
+// parseColour is the inverse of colName.
 func parseColour(s string) color.Color {
-	i := strings.Index(s, "/")
+	i := strings.Index(s, ":")
+	if i < 0 {
+		panic("bad colour " + s)
+	}
 	t := s[:i]
 	var v [4]uint32
 	for k, p := range strings.Split(s[i+1:], ",") {
 		x, err := strconv.ParseUint(p, 16, 32)
-		if err != nil {
+		if err != nil || k > 3 {
 			panic("bad colour " + s)
 		}
 		v[k] = uint32(x)
 	}
 	switch t {
 	case "Gray":
-		return color.Gray{uint8(v[0] >> 8)}
+		return color.Gray{uint8(v[0])}
 	case "Gray16":
 		return color.Gray16{uint16(v[0])}
 	case "RGBA":
-		return color.RGBA{uint8(v[0] >> 8), uint8(v[1] >> 8), uint8(v[2] >> 8), uint8(v[3] >> 8)}
+		return color.RGBA{uint8(v[0]), uint8(v[1]), uint8(v[2]), uint8(v[3])}
+	case "NRGBA":
+		return color.NRGBA{uint8(v[0]), uint8(v[1]), uint8(v[2]), uint8(v[3])}
 	case "RGBA64":
 		return color.RGBA64{uint16(v[0]), uint16(v[1]), uint16(v[2]), uint16(v[3])}
+	case "NRGBA64":
+		return color.NRGBA64{uint16(v[0]), uint16(v[1]), uint16(v[2]), uint16(v[3])}
+	case "CMYK":
+		return color.CMYK{uint8(v[0]), uint8(v[1]), uint8(v[2]), uint8(v[3])}
+	case "Alpha":
+		return color.Alpha{uint8(v[0])}
+	case "Alpha16":
+		return color.Alpha16{uint16(v[0])}
 	}
 	panic("unsupported colour type " + t)
 }
